@@ -820,6 +820,24 @@ theorem cacheNew_effective_bounds (size i m : Int) :
     unfold cacheNewCfg
     rw [this, hc]
 
+/-- **The owner name itself is on the path.** The zone walk of `Lookup`,
+`RetryKey` and `ResetMatching` starts at the asked name: retained zone state
+AT the name (an apex question: SOA / NS / DNSKEY / A of the zone itself) is
+the closest one, so questions of different types, CD bits and audiences for a
+failed zone's own name all derive that zone's key and elect one probe. -/
+theorem apex_zone_state_is_closest (H : Hash) (t : Table) (k : QKey) (e : Entry)
+    (h : loadZone H t ⟨canonicalName (normalizeQ k).name, k.qclass⟩ = some e) :
+    firstStored H t k.qclass (walkZones (normalizeQ k).name) = some (canonicalName (normalizeQ k).name) ∧
+    ∀ now r, retryKey H t now k = some r →
+      r = H.z (normalizeZ ⟨canonicalName (normalizeQ k).name, k.qclass⟩) := by
+  have hfs : firstStored H t k.qclass (walkZones (normalizeQ k).name) = some (canonicalName (normalizeQ k).name) := by
+    unfold walkZones
+    simp only
+    unfold walkZonesFuel firstStored
+    simp [h]
+  refine ⟨hfs, fun now r hr => ?_⟩
+  exact retryKey_zone_first H t now k r _ hr hfs
+
 /-! ## non-vacuity: concrete, non-trivial states satisfying the hypotheses -/
 
 section Examples
@@ -933,6 +951,11 @@ example : (lookupWire H1 (hist.foldl (applyOp H1 cfg0) []) (16 * second - 1)
     [3, 119, 119, 119, 7, 101, 120, 97, 109, 112, 108, 101, 3, 99, 111, 109, 0] 28 1 true).isSome = true := by decide
 example : lookupWire H1 (hist.foldl (applyOp H1 cfg0) []) (16 * second)
     [3, 119, 119, 119, 7, 101, 120, 97, 109, 112, 108, 101, 3, 99, 111, 109, 0] 28 1 true = none := by decide
+
+-- apex_zone_state_is_closest: SOA and DNSKEY questions for the failed zone's own name share its probe key
+example : retryKey H1 (recordZone H1 cfg0 [] 0 ⟨exampleCom, 1⟩ 2 0).1 (5 * second) ⟨exampleCom, 6, 1, false, none⟩
+    = retryKey H1 (recordZone H1 cfg0 [] 0 ⟨exampleCom, 1⟩ 2 0).1 (5 * second) ⟨exampleCom, 48, 1, true, none⟩ := by decide
+example : (retryKey H1 (recordZone H1 cfg0 [] 0 ⟨exampleCom, 1⟩ 2 0).1 (5 * second) ⟨exampleCom, 6, 1, false, none⟩).isSome = true := by decide
 
 end Examples
 
